@@ -9,16 +9,20 @@ import (
 	"crypto/aes"
 	"crypto/cipher"
 	"crypto/des"
+	crand "crypto/rand"
 	"crypto/rsa"
 	"crypto/sha1"
 	"crypto/sha256"
 	"crypto/sha512"
 	"crypto/x509"
+	"crypto/x509/pkix"
 	"encoding/base64"
 	"fmt"
 	"hash"
+	"math/big"
 	"math/rand"
 	"strings"
+	"time"
 
 	"github.com/beevik/etree"
 	"github.com/crewjam/saml/xmlenc"
@@ -147,7 +151,7 @@ func (c *Ctx) toyDec(bs int, key, ct []byte) {
 type xLayer struct {
 	alg    *string
 	digest *string
-	cert   string // "" absent | match | mismatch | garbage | ecdsa
+	cert   string // "" absent | match | mismatch | garbage | ecdsa | samemod-e3 | samemod-e17 (the key's modulus under another public exponent)
 	cipher string // a | b | v
 	ct     []byte
 }
@@ -222,6 +226,10 @@ func (c *Ctx) layersEl(ls []xLayer, depth int) *etree.Element {
 				txt = base64.StdEncoding.EncodeToString(c.key("sp2").Cert.Raw)
 			case "ecdsa":
 				txt = base64.StdEncoding.EncodeToString(c.key("ec256").Cert.Raw)
+			case "samemod-e3":
+				txt = base64.StdEncoding.EncodeToString(c.sameModulusCert(3))
+			case "samemod-e17":
+				txt = base64.StdEncoding.EncodeToString(c.sameModulusCert(17))
 			default:
 				txt = "bm90IGEgY2VydGlmaWNhdGU="
 			}
@@ -238,6 +246,22 @@ func (c *Ctx) layersEl(ls []xLayer, depth int) *etree.Element {
 		el.CreateElement("xenc:CipherData").CreateElement("xenc:CipherValue").SetText(base64.StdEncoding.EncodeToString(l.ct))
 	}
 	return el
+}
+
+var sameModCerts = map[int][]byte{}
+
+// sameModulusCert: a certificate (issued by another key) for the public key (N of the SP key, another exponent) — not the SP's key
+func (c *Ctx) sameModulusCert(e int) []byte {
+	if der, ok := sameModCerts[e]; ok {
+		return der
+	}
+	pub := &rsa.PublicKey{N: c.key("sp").RSA().N, E: e}
+	tmpl := &x509.Certificate{SerialNumber: big.NewInt(int64(1000 + e)), Subject: pkix.Name{CommonName: "same modulus, exponent " + fmt.Sprint(e)},
+		NotBefore: time.Date(2020, 1, 1, 0, 0, 0, 0, time.UTC), NotAfter: time.Date(2040, 1, 1, 0, 0, 0, 0, time.UTC)}
+	der, err := x509.CreateCertificate(crand.Reader, tmpl, c.key("sp2").Cert, pub, c.key("sp2").Key)
+	must(err)
+	sameModCerts[e] = der
+	return der
 }
 
 // ---- independent reference primitives (standard library only) ----
@@ -503,7 +527,7 @@ func (c *Ctx) layersOf(el *etree.Element) []xLayer {
 			l.cert = "garbage"
 			if der, err := base64.StdEncoding.DecodeString(strings.TrimSpace(ce.Text())); err == nil {
 				if cert, err := x509.ParseCertificate(der); err == nil {
-					if pk, ok := cert.PublicKey.(*rsa.PublicKey); ok && pk.N.Cmp(c.key("sp").RSA().N) == 0 {
+					if pk, ok := cert.PublicKey.(*rsa.PublicKey); ok && pk.N.Cmp(c.key("sp").RSA().N) == 0 && pk.E == c.key("sp").RSA().E {
 						l.cert = "match"
 					} else {
 						l.cert = "mismatch"
@@ -902,7 +926,7 @@ func (c *Ctx) genC11() {
 	// the embedded certificate under every way of writing the XML-Signature namespace × every kind of certificate, on an
 	// otherwise valid message: only a matching (or absent) certificate may lead to a plaintext
 	for _, pfx := range []string{"ds", "dsig", "x", "none"} {
-		for _, cert := range []string{"", "match", "mismatch", "garbage", "ecdsa"} {
+		for _, cert := range []string{"", "match", "mismatch", "garbage", "ecdsa", "samemod-e3", "samemod-e17"} {
 			for _, kt := range []string{uriOAEP, uriPKCS} {
 				ck := c.randBytes(16)
 				p := []byte("<a>embedded certificate</a>")
@@ -927,7 +951,7 @@ func (c *Ctx) genC11() {
 	}
 	algs := []*string{nil, sp(""), sp("urn:unknown"), sp(uriAES128), sp(uriAES256), sp(uri3DES), sp(uriGCM), sp(uriOAEP), sp(uriOAEP11), sp(uriPKCS), sp("urn:verif:toy-cbc8"), sp("urn:verif:toy-cbc16")}
 	dgs := []*string{nil, sp(uriSHA1), sp(uriSHA256), sp(uriSHA512), sp(uriRIPEMD), sp("urn:unknown-digest"), sp("")}
-	certs := []string{"", "match", "mismatch", "garbage", "ecdsa"}
+	certs := []string{"", "match", "mismatch", "garbage", "ecdsa", "samemod-e3", "samemod-e17"}
 	n := 1500
 	if !c.quick() {
 		n = 40000
